@@ -43,6 +43,13 @@ pub fn k_f128_linear() {
     vreach!("C10.f128.linear.reach");
 }
 
+// The constant the Verus unit f128_core assumes (axiom_zero), checked on the real code. Concrete evaluation.
+//# harness: fn=f128 FieldElement::ZERO, FieldElement::ONE; label=complete; tier=quick; props=C10
+#[cfg_attr(kani, kani::proof)]
+pub fn k_f128_constants_zero_one() {
+    vcheck!("C10.f128.constants.zero_one", BaseElement::ZERO.0 == 0 && BaseElement::ONE.0 == 1);
+}
+
 //# harness: fn=f128 TryFrom<u128>, TryFrom<&[u8]>, Deserializable::read_from, from_random_bytes, write_into, as_int; label=complete (every slice length 0..=18); tier=quick; props=C11
 #[cfg_attr(kani, kani::proof)]
 #[cfg_attr(kani, kani::unwind(20))]
